@@ -5,14 +5,15 @@ go 1.23
 toolchain go1.23.5
 
 require (
+	github.com/DataDog/zstd v1.5.6
 	github.com/mimecast/dtail v0.0.0
 	golang.org/x/crypto v0.26.0
 	pgregory.net/rapid v1.3.0
 )
 
 require (
-	github.com/DataDog/zstd v1.5.6 // indirect
 	golang.org/x/sys v0.23.0 // indirect
+	golang.org/x/term v0.23.0 // indirect
 )
 
 replace github.com/mimecast/dtail => /repo
